@@ -459,11 +459,9 @@ class GroupEffectsMatrix:
             groups = term.groups
             term_slice = self.slices[name]
             term_slice_width = get_slice_width(term_slice)
-            levels_n = len(term.expr.levels) if has_levels else 1
-            if term_slice_width != len(groups) * levels_n:  # Has extra groups
-                assert (
-                    term_slice_width == len(groups) + levels_n
-                ), "It should only have one extra group"
+            # Number of columns the expression contributes to each group
+            effect_n = term.expr.data.shape[1] if term.expr.data.ndim == 2 else 1
+            if term_slice_width != len(groups) * effect_n:  # Has extra groups
                 groups = groups + ["__NEW_FACTOR_GROUP__"]
             content = [f"kind: {term.kind}", f"groups: {groups}"]
             if has_levels:
